@@ -79,4 +79,27 @@ PROPS = {
             "sim": REAL_COMMON,
         },
     },
+    "C09": {
+        "engine": "rlsim",
+        "instrument": "",
+        "cfgs": [""],
+        "quick": {"seconds": 25, "chunk": 5000, "runs": 400000},
+        "thorough": {"seconds": 600, "chunk": 20000},
+        "rule": ("one run = tape-chosen limiter configuration (limits 1-4, intervals, key lengths /8../32 and /32../128, "
+                 "backoff count 1-3, period/duration, refuse-ANY, allowlist) and a history of 3-40 events (gap from a set "
+                 "around the interval, period and duration boundaries incl. 0 and +-1ns; client from a per-run subset of 9 "
+                 "addresses sharing or not sharing a key; qtype; response size around multiples of the estimate) through the "
+                 "real Middleware+Backoff on the simulated clock; every run is non-trivial; distinct = distinct hash of the "
+                 "decision sequence"),
+        "assumptions": [
+            "backoff accounting follows the implementation's reading (hits are counted from the first over-limit event for backoff_duration): the statement does not fix it and the documentation is ambiguous; see DESIGN.md",
+            "events whose timestamp lies exactly on a window or backoff boundary are not judged and end the run (the statement does not say which side is meant)",
+            "the per-profile limiter precedence of C09 is exercised by the sysim engine, not here",
+        ],
+        "components": {
+            "real": ["internal/dnsserver/ratelimit (Backoff, RequestCounter, DynamicAllowlist, Middleware)", "patrickmn/go-cache on the simulated clock"],
+            "stub": ["next handler (returns a response of tape-chosen size)", "response writer"],
+            "sim": "clock: testing/synctest fake clock; sequential history, no scheduler needed",
+        },
+    },
 }
